@@ -13,7 +13,7 @@ pub fn tier_from(s: &str) -> Tier {
 }
 
 pub fn run_seed(base: u64, property: &str, tier: Tier, index: u64) -> u64 {
-    if property == "C32" {
+    if property == "C32" || property == "C29" {
         // Exhaustive enumeration: the run index is the case number.
         return index
     }
@@ -38,6 +38,12 @@ pub fn run_one(
         if crate::engd::supported(&property) {
             return crate::engd::run(&property, seed, &mask, &scratch)
         }
+        if matches!(property.as_str(), "C12" | "C13" | "C14") && seed % 8 == 0 {
+            // A share of the history runs uses real ASPA objects through
+            // Engine A's server mode.
+            let profile = props::enga_profile("hist-aspa", tier).unwrap();
+            return crate::enga::run(seed, &profile, &mask, &scratch)
+        }
         if let Some(profile) = props::enga_profile(&property, tier) {
             return crate::enga::run(seed, &profile, &mask, &scratch)
         }
@@ -45,6 +51,9 @@ pub fn run_one(
             return crate::engb::run(
                 seed, tier == Tier::Thorough, &mask, &scratch
             )
+        }
+        if property == "C29" {
+            return crate::engb::run_c29(seed as usize, &scratch)
         }
         if property == "C19" {
             return crate::engg::run(
